@@ -27,6 +27,13 @@ func execSplines(g *graph.DGraph, routes []routableEdge) {
 			imonitor.Log("route-node", n)
 		}
 
+		// with zero layer spacing or zero-size nodes some rectangles have no area and there is no room to route a curve:
+		// draw the edge like one that doesn't encounter obstacles
+		if !routable(rects) {
+			e.Points = geom.MakeSpline(start, end).Float64Slice()
+			continue
+		}
+
 		path := geom.Shortest(start, end, rects)
 		// remember the order of the elements in the path slice is from end to start
 
@@ -48,6 +55,16 @@ func execSplines(g *graph.DGraph, routes []routableEdge) {
 			e.Points = append(e.Points, [][2]float64{s[3], s[2], s[1], s[0]}...)
 		}
 	}
+}
+
+// reports whether all rectangles have a positive area, which the shortest path algorithm relies on
+func routable(rects []geom.Rect) bool {
+	for _, r := range rects {
+		if !(r.Width() > 0 && r.Height() > 0) {
+			return false
+		}
+	}
+	return true
 }
 
 func buildRects(g *graph.DGraph, r routableEdge) (rects []geom.Rect) {
